@@ -59,7 +59,7 @@ theorem invS_init (heads best targets pubs st rtts) : InvS (mkInit heads best ta
 
 theorem reachable_invS {v s} (hv : v.oneSnapshot = true) (h : Reachable v s) : InvS s := by
   induction h with
-  | init heads best targets pubs st rtts hp hh => exact invS_init ..
+  | init heads best targets pubs st rtts hp hh hb => exact invS_init ..
   | step hr hs ih => exact invS_step hv (reachable_invL hr) ih hs
 
 /-- the maximum loop over heads = the maximum loop over the members carrying these heads -/
